@@ -44,6 +44,10 @@ type Case struct {
 	// RegisterField call is made (a warm-up whose response is not looked at) - the bindings the
 	// application registers arrive after the root has already been used.
 	LateRegister bool `json:"late_register,omitempty"`
+	// Warm: other (valid) requests over the same schema and data that the root has answered before
+	// the request of the case arrives; their responses are not looked at. A root serves many
+	// requests, whatever it caches has to stay right for the next one.
+	Warm []WarmReq `json:"warm,omitempty"`
 	// PrimeVars: the request is parsed once, resolved with these variables first (response not
 	// looked at) and then - the same parsed Executable - with Vars: what the second resolution
 	// delivers must not depend on the first.
@@ -70,6 +74,13 @@ func (c *Case) GoVars() map[string]interface{} {
 		m[kv.Key] = kv.V.Go()
 	}
 	return m
+}
+
+// WarmReq is one earlier request.
+type WarmReq struct {
+	Text string  `json:"text"`
+	Op   string  `json:"op"`
+	Vars []hx.KV `json:"vars,omitempty"`
 }
 
 // Call is one logged resolver invocation.
@@ -632,6 +643,12 @@ func (w *World) Resolve() (res map[string]interface{}, text string, panicked int
 			panicked = r
 		}
 	}()
+	if len(w.C.Warm) > 0 {
+		for _, wr := range w.C.Warm {
+			_ = w.Root.ResolveString(wr.Text, wr.Op, kvGo(wr.Vars))
+		}
+		w.ResetCalls()
+	}
 	if len(w.C.PrimeVars) > 0 {
 		res = ResolveReused(w.Root, text, w.C.Op, kvGo(w.C.PrimeVars), w.C.GoVars(), w.ResetCalls)
 		return
